@@ -97,7 +97,7 @@ theorem apgmStep_rls_seq {V : Type} (env : Env V ℝ) (γd γu : ℝ) (m : Nat) 
     (s s' : PGMState V ℝ) (hL : 0 < s.L) (hT : 0 ≤ s.ps.Tk) (h : apgmStep env (.rls γd γu m) s = some s') :
     0 < s'.L ∧ s.ps.Tk < s'.ps.Tk ∧ s'.L * (s'.ps.Tk - s.ps.Tk) ^ 2 = s'.ps.Tk := by
   unfold apgmStep at h
-  simp only [Policy.isBB, Bool.false_eq_true, if_false] at h
+  simp only [apgmPoint, Policy.isBB, Bool.false_eq_true, if_false] at h
   split at h
   · cases h
   · rename_i L ps hu
